@@ -1,1 +1,897 @@
-fn main() { eprintln!("not built yet"); std::process::exit(2); }
+//! vp-limiter — monitor for C13: per-key rate limiting is bounded, fair between keys and
+//! self-cleaning.
+//!
+//! The real `passage_protocol::rate_limiter::RateLimiter<u32>` is driven through generated arrival
+//! histories on a paused tokio clock (one current-thread runtime per history). The verdict comes
+//! only from *bounds* over attempt times and returned booleans (DESIGN §5 C13 "E"):
+//!
+//! * `per-window-count`   more than `limit` admissions between two consecutive window starts
+//!                        (window start = the key's first attempt, then each first attempt
+//!                        >= `duration` after the previous start);
+//! * `interval-2x-limit`  more than `2*limit` admissions in a half-open interval of length `duration`;
+//! * `idle-admission`     a rejection although the key made no attempt for >= `2*duration`;
+//! * `lower-bound`        a rejection although admissions in current + previous window < `limit`;
+//! * `projection`         a key's decisions differ between the full history and the history
+//!                        projected onto that key (real limiter run twice);
+//! * `duplicate-rejection` duplicating rejected attempts at the same instant changes a later
+//!                        decision (real limiter run twice);
+//! * `tracked-keys`       after an admitted attempt a tracked key (hook `verif_tracked_keys`) made
+//!                        no attempt within the last `4*duration`.
+//!
+//! An exact-arithmetic restatement of the sliding-window counter runs alongside; its agreement rate
+//! is reported as information only.
+
+use passage_protocol::rate_limiter::RateLimiter;
+use serde_json::{Value, json};
+use std::time::Duration;
+use tokio::time::Instant;
+use vp_common::report;
+use vp_common::{Cli, Report, Rng};
+
+const LIMITS: [u64; 5] = [1, 2, 3, 10, 1000];
+const DURATIONS_NS: [u64; 4] = [1_000_000, 1_000_000_000, 10_000_000_000, 3_600_000_000_000];
+const MAX_KEYS: u32 = 12;
+
+// ---------------------------------------------------------------------------------------------
+// history (fully materialised)
+
+#[derive(Clone, Debug)]
+struct History {
+    limit: u64,
+    duration_ns: u64,
+    n_keys: u32,
+    tempo: String,
+    keying: String,
+    /// (nanoseconds since the previous attempt (of any key), key)
+    attempts: Vec<(u64, u32)>,
+    /// the rejected attempt with ordinal j (0-based, in order of occurrence) is duplicated in the
+    /// second run iff (j + dup_offset) % dup_every == 0
+    dup_every: u64,
+    dup_offset: u64,
+}
+
+impl History {
+    fn to_json(&self, upto: usize) -> Value {
+        let n = upto.min(self.attempts.len());
+        json!({
+            "limit": self.limit,
+            "duration_ns": self.duration_ns,
+            "n_keys": self.n_keys,
+            "tempo": self.tempo,
+            "keying": self.keying,
+            "dup_every": self.dup_every,
+            "dup_offset": self.dup_offset,
+            "attempts_dt_ns_key": self.attempts[..n].iter().map(|(dt, k)| json!([dt, k])).collect::<Vec<_>>(),
+        })
+    }
+
+    fn from_json(v: &Value) -> Option<History> {
+        let u = |k: &str| v.get(k).and_then(|x| x.as_u64());
+        let attempts: Vec<(u64, u32)> = v
+            .get("attempts_dt_ns_key")?
+            .as_array()?
+            .iter()
+            .filter_map(|a| Some((a.get(0)?.as_u64()?, a.get(1)?.as_u64()? as u32)))
+            .collect();
+        let n_keys = attempts.iter().map(|a| a.1 + 1).max().unwrap_or(1).max(u("n_keys").unwrap_or(1) as u32);
+        if n_keys > 16 {
+            return None;
+        }
+        Some(History {
+            limit: u("limit")?.max(1),
+            duration_ns: u("duration_ns")?.max(1),
+            n_keys,
+            tempo: v.get("tempo").and_then(|x| x.as_str()).unwrap_or("replay").to_string(),
+            keying: v.get("keying").and_then(|x| x.as_str()).unwrap_or("replay").to_string(),
+            attempts,
+            dup_every: u("dup_every").unwrap_or(1).max(1),
+            dup_offset: u("dup_offset").unwrap_or(0),
+        })
+    }
+
+    fn times(&self) -> Vec<u64> {
+        let mut t = 0u64;
+        self.attempts
+            .iter()
+            .map(|(dt, _)| {
+                t += dt;
+                t
+            })
+            .collect()
+    }
+
+    fn fingerprint(&self) -> u64 {
+        let mut h: u64 = 0xcbf2_9ce4_8422_2325 ^ self.limit.wrapping_mul(31) ^ self.duration_ns;
+        for (dt, k) in &self.attempts {
+            for x in [*dt, *k as u64 + 1] {
+                h ^= x;
+                h = h.wrapping_mul(0x0000_0100_0000_01b3);
+                h ^= h >> 29;
+            }
+        }
+        h
+    }
+}
+
+// ---------------------------------------------------------------------------------------------
+// generator
+
+const N_GAPS: usize = 20;
+
+/// One inter-arrival value of class `class`, relative to `d` (duration) and `limit`.
+fn gap(rng: &mut Rng, class: usize, d: u64, limit: u64) -> u64 {
+    let r = |rng: &mut Rng, lo: u64, hi: u64| -> u64 { if hi <= lo { lo } else { lo + rng.below(hi - lo) } };
+    match class {
+        0 => 0,
+        1 => 1,
+        2 => r(rng, 1, d / 1000 + 2),                   // tiny
+        3 => r(rng, 1, d.min(1_000_000_000)),           // sub-second (and below the duration)
+        4 => r(rng, 1, d),                              // anywhere inside one duration
+        5 => r(rng, d / (2 * limit + 1), 2 * d / limit + 2), // around the sustainable rate
+        6 => d / 2,
+        7 => d - 1,
+        8 => d,
+        9 => d + 1,
+        10 => r(rng, d, 2 * d),
+        11 => 2 * d - 1,
+        12 => 2 * d,
+        13 => 2 * d + 1,
+        14 => r(rng, 2 * d, 4 * d),
+        15 => 4 * d - 1,
+        16 => 4 * d,
+        17 => 4 * d + 1,
+        18 => d * r(rng, 3, 13),                        // multiples
+        _ => d * r(rng, 1, 6) + *rng.pick(&[0u64, 1, d - 1, d / 2]),
+    }
+}
+
+fn tempo_weights(rng: &mut Rng, tempo: &str) -> [u64; N_GAPS] {
+    let mut w = [1u64; N_GAPS];
+    match tempo {
+        "dense" => {
+            for i in 0..=5 {
+                w[i] = 12;
+            }
+            w[0] = 25;
+        }
+        "threshold" => {
+            w[5] = 60;
+            w[4] = 10;
+            w[0] = 8;
+        }
+        "boundary" => {
+            for i in [7, 8, 9, 11, 12, 13, 15, 16, 17] {
+                w[i] = 10;
+            }
+            w[0] = 15;
+            w[1] = 5;
+        }
+        "sparse" => {
+            for i in 7..N_GAPS {
+                w[i] = 6;
+            }
+            w[0] = 10;
+        }
+        "burst-and-wait" => {
+            w[0] = 60;
+            w[1] = 5;
+            w[2] = 5;
+            for i in [6, 7, 8, 9, 10, 11, 12, 13, 16] {
+                w[i] = 2;
+            }
+        }
+        _ => {
+            // mixed: random weights
+            for x in w.iter_mut() {
+                *x = 1 + rng.below(10);
+            }
+        }
+    }
+    w
+}
+
+fn weighted(rng: &mut Rng, w: &[u64]) -> usize {
+    let total: u64 = w.iter().sum();
+    let mut x = rng.below(total);
+    for (i, wi) in w.iter().enumerate() {
+        if x < *wi {
+            return i;
+        }
+        x -= wi;
+    }
+    w.len() - 1
+}
+
+fn generate(seed: u64, index: u64) -> History {
+    let mut rng = Rng::stream(seed, index);
+    let limit = *rng.pick(&LIMITS);
+    let d = *rng.pick(&DURATIONS_NS);
+    let big = limit == 1000;
+    let n_keys: u32 = if big {
+        *rng.pick(&[1u32, 1, 2, 3])
+    } else {
+        match rng.below(6) {
+            0 => 1,
+            1 => 2,
+            _ => 1 + rng.below(MAX_KEYS as u64) as u32,
+        }
+    };
+    // log-uniform length in 50..=2000 (limit 1000 needs > 1000 attempts to ever reach the threshold)
+    let len = if big {
+        1100 + rng.below(901) as usize
+    } else {
+        let u = rng.below(1_000_000) as f64 / 1_000_000.0;
+        ((50.0 * 40f64.powf(u)) as usize).clamp(50, 2000)
+    };
+    let tempo = if big {
+        *rng.pick(&["burst-and-wait", "dense", "burst-and-wait", "threshold"])
+    } else {
+        *rng.pick(&["dense", "threshold", "boundary", "sparse", "burst-and-wait", "mixed", "mixed", "boundary"])
+    };
+    let keying = if n_keys == 1 {
+        "single"
+    } else {
+        *rng.pick(&["uniform", "hot", "round-robin", "phased", "phased", "hot"])
+    };
+    let w = tempo_weights(&mut rng, tempo);
+    let p_target = *rng.pick(&[0u64, 0, 30, 70]); // percent of steps whose gap is relative to the key's own last attempt
+    let p_burst = if big { 25 } else { *rng.pick(&[0u64, 3, 10, 25]) };
+
+    let mut attempts: Vec<(u64, u32)> = Vec::with_capacity(len);
+    let mut now = 0u64;
+    let mut last: Vec<Option<u64>> = vec![None; n_keys as usize];
+    let mut rr = 0u32;
+    let mut active: Vec<u32> = (0..n_keys).collect();
+    let mut phase_left = 0usize;
+    while attempts.len() < len {
+        // key
+        let key = match keying {
+            "single" => 0,
+            "uniform" => rng.below(n_keys as u64) as u32,
+            "hot" => {
+                if rng.chance(85, 100) {
+                    0
+                } else {
+                    rng.below(n_keys as u64) as u32
+                }
+            }
+            "round-robin" => {
+                rr = (rr + 1) % n_keys;
+                rr
+            }
+            _ => {
+                // phased: an active subset that changes now and then, so keys go idle and return
+                if phase_left == 0 {
+                    phase_left = 5 + rng.usize_below(len / 4 + 1);
+                    let mut all: Vec<u32> = (0..n_keys).collect();
+                    rng.shuffle(&mut all);
+                    let take = 1 + rng.usize_below((n_keys as usize).div_ceil(2));
+                    all.truncate(take);
+                    active = all;
+                }
+                phase_left -= 1;
+                *rng.pick(&active)
+            }
+        };
+        // gap
+        let class = weighted(&mut rng, &w);
+        let g = gap(&mut rng, class, d, limit);
+        let dt = if rng.below(100) < p_target {
+            match last[key as usize] {
+                Some(l) => (l + g).saturating_sub(now),
+                None => g,
+            }
+        } else {
+            g
+        };
+        now += dt;
+        attempts.push((dt, key));
+        last[key as usize] = Some(now);
+        // burst of the same key
+        if rng.below(100) < p_burst {
+            let b = match rng.below(7) {
+                0 => limit.saturating_sub(1),
+                1 => limit,
+                2 => limit + 1,
+                3 => 2 * limit,
+                4 => 2 * limit + 1,
+                _ => 2 + rng.below(19),
+            }
+            .min(1100) as usize;
+            let style = rng.below(4);
+            for _ in 0..b {
+                if attempts.len() >= len {
+                    break;
+                }
+                let bdt = match style {
+                    0 | 1 => 0,
+                    2 => rng.below(2),
+                    _ => gap(&mut rng, 2, d, limit),
+                };
+                now += bdt;
+                attempts.push((bdt, key));
+                last[key as usize] = Some(now);
+            }
+        }
+    }
+    let dup_every = *rng.pick(&[1u64, 1, 2, 3, 7]);
+    let dup_offset = rng.below(dup_every);
+    History {
+        limit,
+        duration_ns: d,
+        n_keys,
+        tempo: tempo.to_string(),
+        keying: keying.to_string(),
+        attempts,
+        dup_every,
+        dup_offset,
+    }
+}
+
+// ---------------------------------------------------------------------------------------------
+// driving the real limiter under virtual time
+
+struct Run {
+    decisions: Vec<bool>,
+    /// bitmask of tracked keys after each attempt (only when observed)
+    tracked: Vec<u32>,
+}
+
+async fn drive(duration_ns: u64, limit: u64, attempts: &[(u64, u32)], observe: bool) -> Result<Run, String> {
+    let t0 = Instant::now();
+    let mut limiter: RateLimiter<u32> = RateLimiter::new(Duration::from_nanos(duration_ns), limit as usize);
+    let mut decisions = Vec::with_capacity(attempts.len());
+    let mut tracked = Vec::with_capacity(if observe { attempts.len() } else { 0 });
+    let mut t = 0u64;
+    for (dt, key) in attempts {
+        if *dt > 0 {
+            tokio::time::advance(Duration::from_nanos(*dt)).await;
+            t += dt;
+            // the attempt instants the oracle reasons about must be the ones the limiter sees
+            let seen = Instant::now().saturating_duration_since(t0);
+            if seen != Duration::from_nanos(t) {
+                return Err(format!("virtual clock shows {seen:?} where the history says {t} ns"));
+            }
+        }
+        decisions.push(limiter.enqueue(*key));
+        if observe {
+            let mut mask = 0u32;
+            for k in limiter.verif_tracked_keys() {
+                if k < 32 {
+                    mask |= 1 << k;
+                } else {
+                    return Err(format!("limiter tracks key {k} that was never offered"));
+                }
+            }
+            tracked.push(mask);
+        }
+    }
+    Ok(Run { decisions, tracked })
+}
+
+// ---------------------------------------------------------------------------------------------
+// exact reference model (information only)
+
+fn reference_model(h: &History, times: &[u64]) -> Vec<bool> {
+    // (window start, last, current) per key; integer nanoseconds, cross-multiplied threshold
+    let d = h.duration_ns as u128;
+    let mut st: Vec<Option<(u64, u64, u64)>> = vec![None; h.n_keys as usize];
+    let mut out = Vec::with_capacity(times.len());
+    for (i, (_, k)) in h.attempts.iter().enumerate() {
+        let now = times[i];
+        let e = st[*k as usize].get_or_insert((now, 0, 0));
+        let age = now - e.0;
+        if age as u128 >= d {
+            if age as u128 >= 2 * d {
+                e.2 = 0;
+            }
+            e.0 = now;
+            e.1 = e.2;
+            e.2 = 0;
+        }
+        let age = (now - e.0) as u128;
+        // last * (1 - age/d) + cur >= limit   <=>   last * (d - age) + cur * d >= limit * d
+        let value = e.1 as u128 * (d - age) + e.2 as u128 * d;
+        if value >= h.limit as u128 * d {
+            out.push(false);
+        } else {
+            e.2 += 1;
+            out.push(true);
+        }
+    }
+    out
+}
+
+// ---------------------------------------------------------------------------------------------
+// oracle
+
+struct Finding {
+    signature: &'static str,
+    what: String,
+    /// the history prefix of this many attempts reproduces the finding
+    prefix: usize,
+    detail: Value,
+}
+
+#[derive(Default)]
+struct Stats {
+    attempts: u64,
+    admissions: u64,
+    rejections: u64,
+    rollovers: u64,
+    cleanups: u64,
+    idle_judged: u64,
+    lower_bound_judged: u64,
+    threshold_windows: u64,
+    tracked_observations: u64,
+    max_tracked: u64,
+    projection_runs: u64,
+    projection_attempts: u64,
+    dup_runs: u64,
+    dup_inserted: u64,
+    dup_admitted: u64,
+    ref_agree: u64,
+    ref_total: u64,
+}
+
+struct Outcome {
+    findings: Vec<Finding>,
+    stats: Stats,
+    nontrivial: bool,
+    harness_error: Option<String>,
+}
+
+fn key_trace(h: &History, times: &[u64], dec: &[bool], key: u32, upto: usize, max: usize) -> Value {
+    let all: Vec<Value> = (0..=upto.min(times.len().saturating_sub(1)))
+        .filter(|i| h.attempts[*i].1 == key)
+        .map(|i| json!({"i": i, "t_ns": times[i], "admitted": dec[i]}))
+        .collect();
+    let skip = all.len().saturating_sub(max);
+    json!({"key": key, "earlier_attempts_omitted": skip, "attempts": all[skip..].to_vec()})
+}
+
+/// Clauses judged from attempt times, returned booleans and the tracked-key observations.
+fn judge_bounds(h: &History, times: &[u64], dec: &[bool], tracked: &[u32], st: &mut Stats, out: &mut Vec<Finding>) {
+    let d = h.duration_ns;
+    let nk = h.n_keys as usize;
+    #[derive(Clone, Default)]
+    struct K {
+        seen: bool,
+        start: u64,
+        prev: u64,
+        cur: u64,
+        last_attempt: u64,
+    }
+    let mut ks = vec![K::default(); nk];
+    let mut fired = [false; 4];
+    let mut prev_tracked = 0u32;
+    for i in 0..times.len() {
+        let (k, t, adm) = (h.attempts[i].1 as usize, times[i], dec[i]);
+        st.attempts += 1;
+        if adm {
+            st.admissions += 1;
+        } else {
+            st.rejections += 1;
+        }
+        let s = &mut ks[k];
+        if !s.seen {
+            s.seen = true;
+            s.start = t;
+        } else {
+            let silence = t - s.last_attempt;
+            if t - s.start >= d {
+                s.prev = s.cur;
+                s.cur = 0;
+                s.start = t;
+                st.rollovers += 1;
+            }
+            if silence >= 2 * d {
+                st.idle_judged += 1;
+                if !adm && !fired[0] {
+                    fired[0] = true;
+                    out.push(Finding {
+                        signature: "idle-admission",
+                        what: format!(
+                            "key {k} was rejected at t={t} ns although its previous attempt was {silence} ns earlier (>= 2*duration = {} ns)",
+                            2 * d
+                        ),
+                        prefix: i + 1,
+                        detail: json!({"attempt": i, "key": k, "t_ns": t, "silence_ns": silence, "trace": key_trace(h, times, dec, k as u32, i, 40)}),
+                    });
+                }
+            }
+        }
+        if s.prev + s.cur < h.limit {
+            st.lower_bound_judged += 1;
+            if !adm && !fired[1] {
+                fired[1] = true;
+                out.push(Finding {
+                    signature: "lower-bound",
+                    what: format!(
+                        "key {k} was rejected at t={t} ns although only {} + {} admissions fall into its previous + current window (limit {})",
+                        s.prev, s.cur, h.limit
+                    ),
+                    prefix: i + 1,
+                    detail: json!({"attempt": i, "key": k, "t_ns": t, "window_start_ns": s.start, "admitted_previous_window": s.prev,
+                        "admitted_current_window": s.cur, "trace": key_trace(h, times, dec, k as u32, i, 40)}),
+                });
+            }
+        }
+        if adm {
+            s.cur += 1;
+            if s.cur == h.limit {
+                st.threshold_windows += 1;
+            }
+            if s.cur > h.limit && !fired[2] {
+                fired[2] = true;
+                out.push(Finding {
+                    signature: "per-window-count",
+                    what: format!(
+                        "key {k}: admission number {} in the window that started at {} ns (limit {}), at t={t} ns",
+                        s.cur, s.start, h.limit
+                    ),
+                    prefix: i + 1,
+                    detail: json!({"attempt": i, "key": k, "t_ns": t, "window_start_ns": s.start, "admitted_in_window": s.cur,
+                        "trace": key_trace(h, times, dec, k as u32, i, 40)}),
+                });
+            }
+        }
+        s.last_attempt = t;
+
+        // tracked keys (hook H2)
+        if let Some(mask) = tracked.get(i).copied() {
+            st.tracked_observations += 1;
+            st.max_tracked = st.max_tracked.max(mask.count_ones() as u64);
+            if mask.count_ones() < prev_tracked.count_ones() {
+                st.cleanups += 1;
+            }
+            prev_tracked = mask;
+            if adm && !fired[3] {
+                for tk in 0..32usize {
+                    if mask & (1 << tk) == 0 {
+                        continue;
+                    }
+                    let stale = match ks.get(tk) {
+                        Some(s) if s.seen => {
+                            let silent = t - s.last_attempt;
+                            if silent > 4 * d { Some(format!("its last attempt was {silent} ns ago")) } else { None }
+                        }
+                        _ => Some("it never made an attempt".to_string()),
+                    };
+                    if let Some(why) = stale {
+                        fired[3] = true;
+                        out.push(Finding {
+                            signature: "tracked-keys",
+                            what: format!(
+                                "after the admitted attempt of key {k} at t={t} ns the limiter still tracks key {tk} although {why} (4*duration = {} ns)",
+                                4 * d
+                            ),
+                            prefix: i + 1,
+                            detail: json!({"attempt": i, "admitted_key": k, "t_ns": t, "stale_key": tk,
+                                "tracked_keys": (0..32).filter(|b| mask & (1 << b) != 0).collect::<Vec<u32>>(),
+                                "last_attempt_ns_per_key": ks.iter().map(|s| if s.seen { json!(s.last_attempt) } else { Value::Null }).collect::<Vec<_>>()}),
+                        });
+                        break;
+                    }
+                }
+            }
+        }
+    }
+
+    // at most 2*limit admissions in any half-open interval of length `duration`
+    // (it suffices to look at the intervals that begin at an admission)
+    let mut per_key: Vec<Vec<usize>> = vec![Vec::new(); nk];
+    for i in 0..times.len() {
+        if dec[i] {
+            per_key[h.attempts[i].1 as usize].push(i);
+        }
+    }
+    'keys: for (k, idx) in per_key.iter().enumerate() {
+        let mut hi = 0usize;
+        for lo in 0..idx.len() {
+            while hi < idx.len() && times[idx[hi]] - times[idx[lo]] < d {
+                hi += 1;
+            }
+            let n = (hi - lo) as u64;
+            if n > 2 * h.limit {
+                let last = idx[hi - 1];
+                out.push(Finding {
+                    signature: "interval-2x-limit",
+                    what: format!(
+                        "key {k}: {n} admissions in [{}, {}) ns, an interval of length duration (2*limit = {})",
+                        times[idx[lo]],
+                        times[idx[lo]] + d,
+                        2 * h.limit
+                    ),
+                    prefix: last + 1,
+                    detail: json!({"key": k, "interval_start_ns": times[idx[lo]], "admissions": n, "trace": key_trace(h, times, dec, k as u32, last, 60)}),
+                });
+                break 'keys;
+            }
+        }
+    }
+}
+
+async fn check_history_async(h: &History) -> Outcome {
+    let mut st = Stats::default();
+    let mut findings = Vec::new();
+    let times = h.times();
+    let fail = |e: String| Outcome { findings: Vec::new(), stats: Stats::default(), nontrivial: false, harness_error: Some(e) };
+
+    // run 1: the full history, tracked keys observed after every attempt
+    let main = match drive(h.duration_ns, h.limit, &h.attempts, true).await {
+        Ok(r) => r,
+        Err(e) => return fail(e),
+    };
+    let dec = &main.decisions;
+    judge_bounds(h, &times, dec, &main.tracked, &mut st, &mut findings);
+
+    // information: exact restatement of the algorithm
+    let model = reference_model(h, &times);
+    st.ref_total += dec.len() as u64;
+    st.ref_agree += dec.iter().zip(model.iter()).filter(|(a, b)| a == b).count() as u64;
+
+    // run 2..: the history projected onto each key
+    if h.n_keys > 1 {
+        'proj: for key in 0..h.n_keys {
+            let idx: Vec<usize> = (0..times.len()).filter(|i| h.attempts[*i].1 == key).collect();
+            if idx.is_empty() || idx.len() == times.len() {
+                continue;
+            }
+            let mut prev = 0u64;
+            let sub: Vec<(u64, u32)> = idx
+                .iter()
+                .map(|i| {
+                    let dt = times[*i] - prev;
+                    prev = times[*i];
+                    (dt, key)
+                })
+                .collect();
+            let alone = match drive(h.duration_ns, h.limit, &sub, false).await {
+                Ok(r) => r,
+                Err(e) => return fail(e),
+            };
+            st.projection_runs += 1;
+            st.projection_attempts += sub.len() as u64;
+            for (j, i) in idx.iter().enumerate() {
+                if alone.decisions[j] != dec[*i] {
+                    findings.push(Finding {
+                        signature: "projection",
+                        what: format!(
+                            "key {key} at t={} ns was {} in the full history but {} when the same attempts of that key arrive alone",
+                            times[*i],
+                            if dec[*i] { "admitted" } else { "rejected" },
+                            if alone.decisions[j] { "admitted" } else { "rejected" }
+                        ),
+                        prefix: i + 1,
+                        detail: json!({"attempt": i, "key": key, "t_ns": times[*i], "full_history": dec[*i], "alone": alone.decisions[j],
+                            "trace_full_history": key_trace(h, &times, dec, key, *i, 40)}),
+                    });
+                    break 'proj;
+                }
+            }
+        }
+    }
+
+    // run 3: rejected attempts duplicated at the same instant
+    let mut dup_of: Vec<usize> = Vec::new(); // original indices that get a duplicate
+    let mut ordinal = 0u64;
+    for (i, a) in dec.iter().enumerate() {
+        if !*a {
+            if (ordinal + h.dup_offset) % h.dup_every.max(1) == 0 {
+                dup_of.push(i);
+            }
+            ordinal += 1;
+        }
+    }
+    if !dup_of.is_empty() {
+        let mut attempts2: Vec<(u64, u32)> = Vec::with_capacity(h.attempts.len() + dup_of.len());
+        let mut origin: Vec<Option<usize>> = Vec::with_capacity(attempts2.capacity());
+        let mut next_dup = 0usize;
+        for (i, a) in h.attempts.iter().enumerate() {
+            attempts2.push(*a);
+            origin.push(Some(i));
+            if next_dup < dup_of.len() && dup_of[next_dup] == i {
+                attempts2.push((0, a.1));
+                origin.push(None);
+                next_dup += 1;
+            }
+        }
+        let second = match drive(h.duration_ns, h.limit, &attempts2, false).await {
+            Ok(r) => r,
+            Err(e) => return fail(e),
+        };
+        st.dup_runs += 1;
+        st.dup_inserted += dup_of.len() as u64;
+        for (p, o) in origin.iter().enumerate() {
+            match o {
+                None => {
+                    if second.decisions[p] {
+                        st.dup_admitted += 1;
+                    }
+                }
+                Some(i) => {
+                    if second.decisions[p] != dec[*i] {
+                        let dups_before: Vec<usize> = dup_of.iter().copied().filter(|x| x < i).collect();
+                        let key = h.attempts[*i].1;
+                        findings.push(Finding {
+                            signature: "duplicate-rejection",
+                            what: format!(
+                                "key {key} at t={} ns was {} originally but {} after {} earlier rejected attempt(s) were repeated at their own instant",
+                                times[*i],
+                                if dec[*i] { "admitted" } else { "rejected" },
+                                if second.decisions[p] { "admitted" } else { "rejected" },
+                                dups_before.len()
+                            ),
+                            prefix: i + 1,
+                            detail: json!({"attempt": i, "key": key, "t_ns": times[*i], "original": dec[*i], "with_duplicates": second.decisions[p],
+                                "duplicated_rejected_attempts": dups_before, "trace_original": key_trace(h, &times, dec, key, *i, 40)}),
+                        });
+                        break;
+                    }
+                }
+            }
+        }
+    }
+
+    let nontrivial = st.rejections > 0 && st.rollovers > 0;
+    Outcome { findings, stats: st, nontrivial, harness_error: None }
+}
+
+fn check_history(h: &History) -> Outcome {
+    let rt = match tokio::runtime::Builder::new_current_thread().enable_time().start_paused(true).build() {
+        Ok(rt) => rt,
+        Err(e) => {
+            return Outcome { findings: vec![], stats: Stats::default(), nontrivial: false, harness_error: Some(format!("cannot build a tokio runtime: {e}")) };
+        }
+    };
+    match std::panic::catch_unwind(std::panic::AssertUnwindSafe(|| rt.block_on(check_history_async(h)))) {
+        Ok(o) => o,
+        Err(p) => {
+            let msg = p.downcast_ref::<String>().cloned().or_else(|| p.downcast_ref::<&str>().map(|s| s.to_string())).unwrap_or_default();
+            Outcome { findings: vec![], stats: Stats::default(), nontrivial: false, harness_error: Some(format!("panic while driving the limiter: {msg}")) }
+        }
+    }
+}
+
+// ---------------------------------------------------------------------------------------------
+
+fn sample_json(h: &History, index: Option<u64>) -> Value {
+    // written-out case: inputs + observed trace (re-run, only for the few sampled histories)
+    let show = h.attempts.len().min(80);
+    let mut short = h.clone();
+    short.attempts.truncate(show);
+    let rt = tokio::runtime::Builder::new_current_thread().enable_time().start_paused(true).build();
+    let trace = rt.ok().and_then(|rt| rt.block_on(drive(short.duration_ns, short.limit, &short.attempts, true)).ok());
+    let times = short.times();
+    json!({
+        "history_index": index,
+        "limit": h.limit, "duration_ns": h.duration_ns, "n_keys": h.n_keys, "tempo": h.tempo, "keying": h.keying,
+        "attempts_total": h.attempts.len(),
+        "first_attempts_observed": trace.map(|r| (0..show).map(|i| json!({
+            "t_ns": times[i], "key": short.attempts[i].1, "admitted": r.decisions[i], "tracked_keys_after": r.tracked[i].count_ones()
+        })).collect::<Vec<_>>()),
+    })
+}
+
+fn absorb(report: &mut Report, h: &History, o: Outcome, origin: &str) {
+    if let Some(e) = o.harness_error {
+        report.inconclusive_fatal(&format!("history could not be judged ({origin}): {e}"));
+        return;
+    }
+    let class = format!("history/{:016x}", h.fingerprint());
+    report.eval(if o.nontrivial { Some(&class) } else { None });
+    let s = &o.stats;
+    report.count("attempts (full-history runs)", s.attempts);
+    report.count("admissions", s.admissions);
+    report.count("rejections", s.rejections);
+    report.count("window rollovers observed (reconstructed window starts after the first)", s.rollovers);
+    report.count("cleanup events observed (tracked-key count decreased)", s.cleanups);
+    report.count("windows filled up to the limit", s.threshold_windows);
+    report.count("attempts after >= 2*duration silence judged (idle-admission)", s.idle_judged);
+    report.count("attempts with previous+current window admissions < limit judged (lower-bound)", s.lower_bound_judged);
+    report.count("tracked-key observations (hook)", s.tracked_observations);
+    report.count("single-key projection runs", s.projection_runs);
+    report.count("attempts replayed in projection runs", s.projection_attempts);
+    report.count("runs with duplicated rejected attempts", s.dup_runs);
+    report.count("rejected attempts duplicated", s.dup_inserted);
+    report.count("duplicates that were themselves admitted (information)", s.dup_admitted);
+    report.count("reference model: attempts compared (information)", s.ref_total);
+    report.count("reference model: agreements (information)", s.ref_agree);
+    if s.rejections > 0 {
+        report.count("histories with at least one rejection", 1);
+    }
+    if s.cleanups > 0 {
+        report.count("histories with at least one cleanup event", 1);
+    }
+    report.count(&format!("histories with limit {}", h.limit), 1);
+    report.count(&format!("histories with duration {} ns", h.duration_ns), 1);
+    for f in o.findings {
+        let mut w = json!({
+            "origin": origin,
+            "clause": f.signature,
+            "history": h.to_json(f.prefix),
+            "history_attempts_total": h.attempts.len(),
+            "note": "history is the shortest prefix that shows the finding; replay with --replay <this file>",
+        });
+        w.as_object_mut().expect("object").insert("observed".into(), f.detail);
+        report.violation(f.signature, &f.what, w);
+    }
+}
+
+fn main() {
+    let cli = Cli::parse();
+    report::watchdog(&cli.prop, 900);
+    let mut report = Report::new(
+        &cli,
+        "exploration",
+        "each case is one seeded arrival history (50-2000 attempts, 1-12 keys, limit in {1,2,3,10,1000}, duration in {1ms,1s,10s,1h}, \
+         inter-arrival classes 0/1ns/sub-second/around the sustainable rate/duration-1ns/duration/duration+1ns/2*duration+-1ns/4*duration+-1ns/multiples, \
+         bursts, hot key, phased keys) executed by the real RateLimiter on a paused tokio clock: once in full, once per key alone, once with rejected attempts duplicated. \
+         A history is non-trivial when it contains at least one rejection and at least one window rollover; distinct_nontrivial counts distinct non-trivial histories \
+         (fingerprint over limit, duration and every (gap, key))",
+    );
+    report.assume("attempt instants are the paused tokio clock's; the monitor verifies after every advance that the clock shows exactly the planned instant");
+    report.assume("verdicts come from the stated bounds only; the exact-arithmetic reference model (integer ns, cross-multiplied weights) is informational because the product weighs in f32");
+    report.assume("tracked keys are read through the verif-hooks accessor RateLimiter::verif_tracked_keys (add-only, feature gated)");
+    std::panic::set_hook(Box::new(|_| {}));
+
+    if let Some(path) = cli.replay.clone() {
+        let parsed = std::fs::read_to_string(&path)
+            .ok()
+            .and_then(|t| serde_json::from_str::<Value>(&t).ok())
+            .and_then(|v| {
+                let w = v.get("witness").cloned().unwrap_or(v);
+                History::from_json(w.get("history").unwrap_or(&w))
+            });
+        match parsed {
+            None => report.inconclusive_fatal(&format!("cannot read a history from replay file {}", path.display())),
+            Some(h) => {
+                let o = check_history(&h);
+                for f in &o.findings {
+                    println!("[{}] replay: {} — {}", cli.prop, f.signature, f.what);
+                }
+                report.sample(sample_json(&h, None));
+                report.add_distinct("replay");
+                report.add_distinct(&format!("replay/{:016x}", h.fingerprint()));
+                absorb(&mut report, &h, o, "replay");
+            }
+        }
+        std::process::exit(report.finish());
+    }
+
+    let total = cli.scaled(cli.tier.pick(2_000, 200_000));
+    let seed = cli.seed;
+    // batches keep memory flat: outcomes are folded into the report batch by batch
+    let batch = 2_000u64;
+    let mut done = 0u64;
+    let mut samples_taken = 0;
+    while done < total {
+        let n = batch.min(total - done);
+        let items: Vec<u64> = (done..done + n).collect();
+        let outs = report::par_map(items, cli.threads(), |_, idx| {
+            let h = generate(seed, *idx);
+            let o = check_history(&h);
+            (h, o, *idx)
+        });
+        for (h, o, idx) in outs {
+            if samples_taken < 3 && o.nontrivial && h.attempts.len() <= 200 && o.stats.cleanups > 0 {
+                samples_taken += 1;
+                report.sample(sample_json(&h, Some(idx)));
+            }
+            absorb(&mut report, &h, o, &format!("generated history #{idx} of seed {seed}"));
+        }
+        done += n;
+    }
+    if samples_taken == 0 {
+        report.sample(sample_json(&generate(seed, 0), Some(0)));
+    }
+    let (agree, all) = (report.counter("reference model: agreements (information)"), report.counter("reference model: attempts compared (information)"));
+    if all > 0 {
+        report.set("reference_model_agreement_rate", json!((agree as f64 / all as f64 * 1e6).round() / 1e6));
+    }
+    if report.counter("rejections") == 0 || report.counter("window rollovers observed (reconstructed window starts after the first)") == 0 {
+        report.inconclusive("the workload produced no rejection or no window rollover; the bounds were not exercised");
+    }
+    std::process::exit(report.finish());
+}
